@@ -145,6 +145,7 @@ func main() {
 		fl := flag.NewFlagSet("verify", flag.ExitOnError)
 		quick := fl.Int("t", 10, "solver timeout (s)")
 		verbose := fl.Bool("v", false, "list every obligation")
+		models := fl.Bool("m", false, "ask for a concrete model of every failed obligation")
 		keep := fl.String("out", "/tmp/kvc-out", "directory for SMT files")
 		fl.Parse(os.Args[2:])
 		p, err := loadProgram(repoDir())
@@ -169,7 +170,7 @@ func main() {
 				continue
 			}
 			o := verifyOne(p, sp, fs, "", *keep, runtime.NumCPU(), 3, *quick)
-			bad += printOutcome(o, *verbose)
+			bad += printOutcome(o, *verbose, *models)
 		}
 		if bad > 0 {
 			os.Exit(1)
@@ -183,7 +184,7 @@ func main() {
 	}
 }
 
-func printOutcome(o *funcOutcome, verbose bool) int {
+func printOutcome(o *funcOutcome, verbose, models bool) int {
 	bad := 0
 	if o.Err != "" {
 		fmt.Printf("%-50s ENGINE ERROR: %s\n", o.Key, o.Err)
@@ -201,6 +202,12 @@ func printOutcome(o *funcOutcome, verbose bool) int {
 			fmt.Printf("   FAIL %-70s %s %s %dms  %s\n        %s  [%s]\n", r.Ob.Name, r.Verdict, r.Solver, r.Ms, r.File, r.Ob.Clause, r.Ob.Pos)
 			if r.Verdict == "error" {
 				fmt.Println("        " + strings.ReplaceAll(strings.TrimSpace(r.Output), "\n", "\n        "))
+			} else if !r.Ob.Cover && models {
+				ps, note := concreteModel(o.Gen, r, 10)
+				fmt.Println("        " + strings.ReplaceAll(note, "\n", "\n        "))
+				for _, p := range ps {
+					fmt.Printf("          %-28s = %s\n", p.Name, p.Val)
+				}
 			}
 		}
 	}
